@@ -258,15 +258,17 @@ func doObjdump(binary, hash string) (string, error) {
 		}
 	}
 
-	f, err = os.Create(dumpFile)
+	// Write to a temporary file and move it into place only after the
+	// disassembler succeeded and all data was flushed. A file under the
+	// final name is therefore always complete.
+	f, err = os.CreateTemp(filepath.Dir(dumpFile), filepath.Base(dumpFile)+".tmp-")
 	if err != nil {
 		return "", err
 	}
+	defer os.Remove(f.Name())
 	defer f.Close()
 
 	out := bufio.NewWriter(f)
-	defer out.Flush()
-
 	if _, err = out.WriteString(hash + "\n"); err != nil {
 		return "", err
 	}
@@ -274,6 +276,15 @@ func doObjdump(binary, hash string) (string, error) {
 	cmd := exec.Command("go", "tool", "objdump", binary)
 	cmd.Stdout = out
 	if err = cmd.Run(); err != nil {
+		return "", err
+	}
+	if err = out.Flush(); err != nil {
+		return "", err
+	}
+	if err = f.Close(); err != nil {
+		return "", err
+	}
+	if err = os.Rename(f.Name(), dumpFile); err != nil {
 		return "", err
 	}
 
